@@ -17,6 +17,8 @@ pub enum OptVar {
     NoSnippet,
     Radius0,
     Radius5,
+    LastWins,
+    FirstWins,
 }
 
 impl OptVar {
@@ -26,9 +28,12 @@ impl OptVar {
             OptVar::NoSnippet => "with_snippet=false",
             OptVar::Radius0 => "crop_radius=0",
             OptVar::Radius5 => "crop_radius=5",
+            OptVar::LastWins => "duplicate_keys=LastWins",
+            OptVar::FirstWins => "duplicate_keys=FirstWins",
         }
     }
-    pub const ALL: [OptVar; 4] = [OptVar::Default, OptVar::NoSnippet, OptVar::Radius0, OptVar::Radius5];
+    pub const ALL: [OptVar; 6] =
+        [OptVar::Default, OptVar::NoSnippet, OptVar::Radius0, OptVar::Radius5, OptVar::LastWins, OptVar::FirstWins];
 }
 
 pub fn mk_opts(ov: OptVar) -> Options {
@@ -39,6 +44,8 @@ pub fn mk_opts(ov: OptVar) -> Options {
         OptVar::NoSnippet => o.with_snippet = false,
         OptVar::Radius0 => o.crop_radius = 0,
         OptVar::Radius5 => o.crop_radius = 5,
+        OptVar::LastWins => o.duplicate_keys = serde_saphyr::DuplicateKeyPolicy::LastWins,
+        OptVar::FirstWins => o.duplicate_keys = serde_saphyr::DuplicateKeyPolicy::FirstWins,
     }
     o
 }
@@ -286,11 +293,11 @@ impl_crate!(
         use garde::Validate;
         match r.validate() {
             Ok(()) => BTreeSet::new(),
-            Err(rep) => rep.iter().map(|(p, _)| norm(&p.to_string())).collect(),
+            Err(rep) => rep.iter().map(|(p, _)| norm(&p.to_string().replace("r#", ""))).collect(),
         }
     },
     |e| match e {
-        Error::ValidationError { report, .. } => Some(report.iter().map(|(p, _)| norm(&p.to_string())).collect()),
+        Error::ValidationError { report, .. } => Some(report.iter().map(|(p, _)| norm(&p.to_string().replace("r#", ""))).collect()),
         _ => None,
     },
     |e| match e {
@@ -331,7 +338,7 @@ impl_crate!(
             Err(errs) => {
                 let mut out = Vec::new();
                 validator_paths(&errs, "", &mut out);
-                out.iter().map(|p| norm(p)).collect()
+                out.iter().map(|p| norm(&p.replace("r#", ""))).collect()
             }
         }
     },
@@ -339,7 +346,7 @@ impl_crate!(
         Error::ValidatorError { errors, .. } => {
             let mut out = Vec::new();
             validator_paths(errors, "", &mut out);
-            Some(out.iter().map(|p| norm(p)).collect())
+            Some(out.iter().map(|p| norm(&p.replace("r#", ""))).collect())
         }
         _ => None,
     },
@@ -526,9 +533,14 @@ pub fn verify_error<C: Crate>(cx: &Ctx, entry: &str, ov: &str, e: &Error, x: &Ex
 
     // 2./3. recording localizer, plain and snippet rendering
     let mut auto: Option<(String, Vec<Issue>)> = None;
-    let modes: &[SnippetMode] = if heavy { &[SnippetMode::Off, SnippetMode::Auto] } else { &[SnippetMode::Auto] };
-    for &mode in modes {
-        let (text, log) = match catch(|| render_recorded(e, mode)) {
+    // (snippet mode, user-facing formatter?) — developer formatter in both modes, user formatter in Auto
+    let modes: &[(SnippetMode, bool)] = if heavy {
+        &[(SnippetMode::Off, false), (SnippetMode::Auto, true), (SnippetMode::Auto, false)]
+    } else {
+        &[(SnippetMode::Auto, false)]
+    };
+    for &(mode, user) in modes {
+        let (text, log) = match catch(|| render_recorded(e, mode, user)) {
             Ok(x) => x,
             Err(p) => {
                 cx.vio(&format!("C18:panic:{}", panic_site(&p)), entry, ov, p);
@@ -555,7 +567,8 @@ pub fn verify_error<C: Crate>(cx: &Ctx, entry: &str, ov: &str, e: &Error, x: &Ex
                 cx.c(if is.windowed { "snippet_issue_with_window" } else { "snippet_issue_without_window(fallback)" });
             }
         }
-        if mode == SnippetMode::Auto {
+        cx.c(if user { "renders_recorded/user-formatter" } else { "renders_recorded/developer-formatter" });
+        if mode == SnippetMode::Auto && !user {
             auto = Some((text, issues));
         }
     }
@@ -650,8 +663,8 @@ pub struct SingleCase<'a> {
     pub arrivals: &'a BTreeMap<String, Arr>,
     pub intended: Option<&'a J>,
     pub chunk: usize,
-    /// None: every options variant on every `_with_options` entry point; Some(ov): only that one
-    pub only_ov: Option<OptVar>,
+    /// None: every options variant on every `_with_options` entry point; Some(ovs): only those
+    pub only_ov: Option<&'a [OptVar]>,
 }
 
 /// Returns false when the case was inconclusive (model guards).
@@ -698,14 +711,10 @@ pub fn check_single<C: Crate>(cx: &Ctx, sc: &SingleCase) -> bool {
     let short = lines.iter().all(|l| l.chars().count() <= 60);
 
     for en in C::singles() {
-        let one;
         let ovs: &[OptVar] = match (en.with_opts, sc.only_ov) {
             (false, _) => &[OptVar::Default],
             (true, None) => &OptVar::ALL,
-            (true, Some(ov)) => {
-                one = [ov];
-                &one
-            }
+            (true, Some(ovs)) => ovs,
         };
         for &ov in ovs {
             run.eval();
@@ -759,7 +768,7 @@ pub fn check_single<C: Crate>(cx: &Ctx, sc: &SingleCase) -> bool {
                             decoys: sc.decoys,
                             arrivals: sc.arrivals,
                             doc_lines: &lines,
-                            window_check: short && matches!(ov, OptVar::Default),
+                            window_check: short && matches!(ov, OptVar::Default | OptVar::LastWins | OptVar::FirstWins),
                         };
                         // all renderings on the entry points without options; on the `_with_options` ones only when `full`
                         let heavy = cx.full || !en.with_opts;
@@ -893,7 +902,7 @@ pub fn check_stream<C: Crate>(cx: &Ctx, sc: &StreamCase) -> bool {
                     decoys: &no_decoys,
                     arrivals: &sc.arrivals[di],
                     doc_lines: &lines,
-                    window_check: short && matches!(ov, OptVar::Default),
+                    window_check: short && matches!(ov, OptVar::Default | OptVar::LastWins | OptVar::FirstWins),
                 };
                 verify_error::<C>(cx, en.name, ov.name(), &subs[j], &x, true);
             }
@@ -910,7 +919,7 @@ pub fn check_stream<C: Crate>(cx: &Ctx, sc: &StreamCase) -> bool {
                 ),
             }
             for mode in [SnippetMode::Off, SnippetMode::Auto] {
-                let (_, log) = match catch(|| render_recorded(&e, mode)) {
+                let (_, log) = match catch(|| render_recorded(&e, mode, false)) {
                     Ok(x) => x,
                     Err(p) => {
                         cx.vio(&format!("C18:panic:{}", panic_site(&p)), en.name, ov.name(), p);
